@@ -477,6 +477,21 @@ class Engine:
         self._note_orphans("failed-commit")
         self._sync(expect_new=None, expect_removed=set(), op="failed_commit")
 
+    def op_reappend_file(self, s):
+        """A data file that the current snapshot already lists is appended AGAIN (an ingestion re-run handing in the same
+        DataFile): the library accepts it and lists the path in a second manifest; readers count a path once. Model: a new
+        snapshot with the same file set and rows - and a later delete_files of that path must remove it from EVERY manifest."""
+        paths = self._pick_files([s["pick"]])
+        if not paths or self.open_txns:
+            return
+        want = paths[0]
+        dfs = [df for df in self.t._get_all_data_files() if norm(df.file_path) == want]
+        if not dfs:
+            return
+        self._guard("reappend_file", lambda: self.t.append_data([dfs[0]]))
+        self.labels["file-listed-twice"] += 1
+        self._sync(expect_new={"files": self.cur_files(), "n_new": 0, "rows": self.cur_rows()}, op="reappend_file")
+
     def op_racing_append(self, s):
         """An append that LOSES a commit race: while its first commit attempt is on its way, a second handle commits an append
         (forced, not timed: the interloper runs inside a one-shot wrapper around this handle's MetadataManager.commit); the
@@ -681,6 +696,7 @@ def step_strategy(gc=True, clock_ticks="forward", props_ops=True, open_txn=True)
         (1, st.just({"op": "failed_commit"})),
         (1, st.just({"op": "reopen"})),
         (2, st.builds(lambda n: {"op": "racing_append", "n": n}, st.integers(1, 2))),
+        (1, st.builds(lambda i: {"op": "reappend_file", "pick": i}, st.integers(0, 8))),
     ]
     if ticks is not None:
         ss.append((3, st.builds(lambda ms: {"op": "tick", "ms": ms}, ticks)))
@@ -711,6 +727,7 @@ def _macros(gc=True):
         [{"op": "txn", "appends": [1, 2, 1], "delete": [], "expire": None}, {"op": "delete_files", "pick": [1], "slash": False, "ghost": False},
          {"op": "delete_snapshot", "which": 0}, {"op": "delete_snapshot", "which": 0}] + tail + [{"op": "append", "n": 1}],
         [{"op": "append", "n": 1}, {"op": "txn", "appends": [1, 1], "delete": [0], "expire": ("future", 0)}] + tail,
+        [{"op": "append", "n": 1}, {"op": "reappend_file", "pick": 0}, {"op": "append", "n": 1}, {"op": "delete_files", "pick": [0], "slash": False, "ghost": False}] + tail,
     ])
 
 
